@@ -784,7 +784,8 @@ def case_api(ctx, inp):
             # a random program: chain of per-partition steps, then a terminal operation
             cur, ref = b.map(num), [num(x) for x in seq]
             for _ in range(rng.randint(1, 5)):
-                step = rng.choice(["map", "filter", "remove", "flatten", "map_partitions", "repartition", "accumulate", "distinct_sorted"])
+                step = rng.choice(["map", "filter", "remove", "flatten", "map_partitions", "repartition", "accumulate", "distinct_sorted",
+                                   "zip_self"])
                 if step == "map":
                     c = rng.randint(-2, 3)
                     cur, ref = cur.map(lambda v, c=c: v * 2 + c), [v * 2 + c for v in ref]
@@ -797,6 +798,8 @@ def case_api(ctx, inp):
                     cur, ref = cur.map(lambda v: [v] * (v % 3)).flatten(), [w for v in ref for w in [v] * (v % 3)]
                 elif step == "map_partitions":
                     cur, ref = cur.map_partitions(lambda p: [v + 1 for v in p]), [v + 1 for v in ref]
+                elif step == "zip_self":
+                    cur, ref = db.zip(cur, cur).starmap(lambda u, w: u + 2 * w), [3 * v for v in ref]
                 elif step == "repartition":
                     cur = cur.repartition(npartitions=rng.randint(1, 6))
                 elif step == "accumulate":
@@ -881,6 +884,29 @@ def case_api(ctx, inp):
                 chk("to_dataframe(scalars) rows", df.compute(scheduler="sync")["v"].tolist(), [num(x) for x in seq])
             chk("to_dataframe npartitions", df.npartitions, len(parts))
             chk("to_dataframe rows per partition", df.map_partitions(len).compute(scheduler="sync").tolist(), [len(p) for p in parts])
+        elif op == "same_bag_twice":
+            # one lazily mapped bag read twice by a single task (zip / map / map_partitions / join / product / concat
+            # of a bag with itself): after fusion the intermediate partition must not be a one-shot iterator
+            b2 = b.map(num).map(lambda v: v * 2 + 1)
+            vals = [num(x) * 2 + 1 for x in seq]
+            chk("zip(b2, b2)", list(db.zip(b2, b2)), list(zip(vals, vals)))
+            chk("zip(b2, b2, b2)", list(db.zip(b2, b2, b2)), list(zip(vals, vals, vals)))
+            chk("map(f, b2, b2)", list(db.map(lambda u, w: u - w, b2, b2)), [0] * len(vals))
+            chk("map(f, b2, y=b2)", list(db.map(lambda u, y=0: (u, y), b2, y=b2)), list(zip(vals, vals)))
+            chk("map_partitions(f, b2, b2)", list(db.map_partitions(lambda p, q: [(list(p), list(q))], b2, b2)),
+                [([num(x) * 2 + 1 for x in p],) * 2 for p in parts])
+            b3 = b2.filter(lambda v: v % 3 != 0)
+            v3 = [v for v in vals if v % 3 != 0]
+            chk("zip of a filtered bag with itself", list(db.zip(b3, b3)), list(zip(v3, v3)))
+            lazify_invariant(ctx, db.zip(b3, b3), "zip(b3, b3)")
+            lazify_invariant(ctx, db.map(lambda u, w: u - w, b2, b2), "map(f, b2, b2)")
+            chk("zip(b2, b2).starmap", list(db.zip(b2, b2).starmap(lambda u, w: u + w)), [2 * v for v in vals])
+            chk("product(b2, b2)", sorted(b2.product(b2)), sorted(itertools.product(vals, vals)))
+            chk("concat([b2, b2])", list(db.concat([b2, b2])), vals + vals)
+            one = b2.repartition(npartitions=1)
+            chk("self-join", sorted(one.join(one, lambda v: v % 4)), sorted((y, x_) for x_ in vals for y in vals if x_ % 4 == y % 4))
+            chk("b2 and a reduction of b2 in one task", list(b2.map(lambda v, t=0: v - t, t=b2.max())) if vals else [],
+                [v - max(vals) for v in vals] if vals else [])
         elif op == "reduction":
             chk("reduction(sum, sum)", b.map(num).reduction(sum, sum, split_every=se).compute(), sum(map(num, seq)))
             chk("reduction(list, concat)", b.reduction(list, lambda xs: [y for x in xs for y in x], split_every=se).compute(), seq)
@@ -889,6 +915,53 @@ def case_api(ctx, inp):
     ctx.branch(f"api:{op}")
     if 0 in sizes and len(sizes) > 1:
         ctx.branch("api:empty-partition")
+
+
+def _refcount(obj, counts):
+    """Independent count (with multiplicity) of the key references inside a task-spec object."""
+    from dask._task_spec import GraphNode, Task, TaskRef
+    if isinstance(obj, TaskRef):
+        counts[obj.key] += 1
+    elif isinstance(obj, Task):
+        for a in list(obj.args) + list(obj.kwargs.values()):
+            _refcount(a, counts)
+    elif isinstance(obj, GraphNode):
+        for k in obj.dependencies:
+            counts[k] += 1
+    elif isinstance(obj, dict):
+        for a in obj.values():
+            _refcount(a, counts)
+    elif isinstance(obj, (list, tuple, set, frozenset)):
+        for a in obj:
+            _refcount(a, counts)
+
+
+def lazify_invariant(ctx, bag, what):
+    """Function level (bag optimize = cull + fuse + lazify): inside every fused task of the optimised graph, an
+    inner key that is read more than once must still produce a list (head `list` / `reify`), never a bare lazy
+    iterator (`map_chunk`, `filter`, …) that the second read would find exhausted."""
+    import dask.bag.core as bc
+    from dask._task_spec import Task
+    dsk = bc.optimize(bag.dask, bag.__dask_keys__())
+    nfused = 0
+    for key, t in dsk.items():
+        if isinstance(t, Task) and t.func is bc._execute_subgraph:
+            sub, outkey = t.args[0], t.args[1]
+            counts = collections.Counter()
+            for v in sub.values():
+                _refcount(v, counts)
+            nfused += 1
+            for k, v in sub.items():
+                if k != outkey and counts[k] > 1 and isinstance(v, Task) and v.func not in (list, bc.reify):
+                    if getattr(v.func, "__name__", "") in ("map_chunk", "filter", "map", "concat", "starmap_chunk", "random_sample"):
+                        ctx.fail(f"{what}: lazify left the inner key {str(k)[:40]} as a lazy iterator although it is read "
+                                 f"{counts[k]} times inside one fused task", observed=getattr(v.func, "__name__", repr(v.func)))
+                    else:
+                        ctx.note("lazify:inner-key-read-twice-with-unknown-head")
+                if k != outkey and counts[k] > 1:
+                    ctx.branch("lazify:inner-key-read-twice-kept-as-list")
+    if nfused:
+        ctx.branch("lazify:fused-task-inspected")
 
 
 def _sync(fn):
@@ -975,7 +1048,7 @@ def gen_parts(rng, maxparts=9, maxlen=5, lo=-4, hi=9):
 
 API_OPS = ["map", "starmap", "filter", "map_partitions", "pluck", "flatten", "distinct", "frequencies", "topk", "stats",
            "foldby", "groupby", "join", "accumulate", "take", "repartition", "from_sequence", "fold_set", "reduction",
-           "multi_consumer", "pipeline", "pipeline", "pipeline", "foldby_joint", "delayed"]
+           "multi_consumer", "pipeline", "pipeline", "pipeline", "foldby_joint", "delayed", "same_bag_twice"]
 
 
 def generate(ctx):
@@ -985,6 +1058,7 @@ def generate(ctx):
     yield "reduce", {"parts": [[], []], "se": None, "kind": "fold", "op": "add", "cop": "add", "init": 0}
     yield "accumulate", {"parts": [[], [1, 2]], "op": "add", "init": None}
     yield "repartition", {"parts": [[i] for i in range(15)], "m": 11}
+    yield "api", {"op": "same_bag_twice", "kind": "int", "sizes": [3, 0, 2], "seed": 1, "se": None, "k": 0, "m": 1, "mb": None, "nout": None}
     ndisk = [0]
     for n, m in ((15, 11), (15, 13), (26, 23), (29, 25), (30, 11)):   # int(i*(n/m)) != i*n//m
         yield "repartition", {"parts": [[i] for i in range(n)], "m": m}
